@@ -1130,6 +1130,11 @@ def _min_work(item):
     bad, _, out = check_pair(s, p)
     msg = next(v[2] for v in bad if v.sig == sig)
     return {"sig": sig, "origin": "generated-stub", "src": s, "pyi": p}, msg, out
+  if not spec:   # a PS-def program (no item spec to minimise over): reported as is
+    p = _infer(src, False)
+    bad, _, out = check_pair(src, p)
+    msg = next(v[2] for v in bad if v.sig == sig)
+    return {"sig": sig, "origin": "inferred-stub", "src": src, "pyi_seen": p}, msg, out
   sp = minimise_inferred(spec, sig)
   s = render(sp)
   p = _infer(s, False)
@@ -1162,6 +1167,13 @@ def run(rep, tier, seed):
       nstub += len(stubs)
       for part in range((len(stubs) + CHUNK - 1) // CHUNK):
         items.append(("gen", src, spec, part, ty))
+  # definition-rich programs (PS-def) with the stub pytype infers for them
+  from vk import defspace
+  ndef = 0
+  for i, src in defspace.programs(tier):
+    if tier != "quick" or i.startswith(("alone:", "flow:assign<-", "flow:outside<-", "flow:default<-", "flow:initattr<-")):
+      items.append(("inf", src, [], 0, None))
+      ndef += 1
   tot, best = {}, {}
   t0 = time.time()
   # everything the workers need is imported before they fork; the generated-stub items each run in a
@@ -1198,7 +1210,7 @@ def run(rep, tier, seed):
   rep.sample({"program": sample_src, "one_generated_stub": gen_stubs(sample_src, types)[0][17]})
   rep.sample({"program": render((("K", "f_all", "class", False),))})
   rep.cov.update({
-      "programs": len(progs), "programs_with_generated_stub_family": sum(1 for t, _, _ in progs if t == "full"),
+      "programs": len(progs), "ps_def_programs_with_inferred_stub": ndef, "programs_with_generated_stub_family": sum(1 for t, _, _ in progs if t == "full"),
       "generated_stubs": nstub, "inferred_stubs": len(progs), "max_slots_per_program": maxslots,
       "type_alphabet": [t or "(no annotation)" for t in types],
       "items": len(ITEMS), "inserted_annotations_verified": {k: tot.get(k, 0) for k in ("ins_param", "ins_return", "ins_var", "ins_decl")},
